@@ -125,6 +125,16 @@ func itValue(h *rt.H, k int, x int8) interface{} {
 		return itRegular{In: itIn{X: x}, P: in, S: []*itIn{in, nil}}
 	case 6:
 		return map[string]*itIn{"k": in}
+	case 8: // inlined interface members holding different dynamic types
+		return inlIfaceT{A: x, I: itIn{X: x}, Z: 1}
+	case 9:
+		return inlIfaceT{A: x, I: map[string]int8{"m": x}, Z: 1}
+	case 10:
+		return inlIfaceT{A: x, I: &tIn{X: x}, Z: 1}
+	case 11:
+		return struct{ I interface{} }{valF{x}}
+	case 12:
+		return struct{ I interface{} }{&ptrF{x}}
 	}
 	return []interface{}{in, itIn{X: x}}
 }
@@ -132,7 +142,7 @@ func itValue(h *rt.H, k int, x int8) interface{} {
 // REUSE_Iterator (C17): an Iterator that has folded value A folds probe B exactly as
 // a fresh Iterator does.
 func REUSE_Iterator(h *rt.H) {
-	a, b := h.Choose("A", 0, 7), h.Choose("B", 0, 7)
+	a, b := h.Choose("A", 0, 12), h.Choose("B", 0, 12)
 	x, y := int8(h.U8("x")), int8(h.U8("y"))
 	var rec ev.Recorder
 	it, err := gotype.NewIterator(&rec)
